@@ -6,6 +6,7 @@ From TS Require Import Spec.Serde Spec.C04Spec Spec.C04Readers.
 From TS Require Proofs.FrontTypes Proofs.FrontAttrs Proofs.C04 Proofs.C04_Back Proofs.C04_Matrix Proofs.GoAcronyms.
 Import ListNotations.
 Local Open Scope nat_scope.
+From TS Require Proofs.C12Multi Proofs.C12MultiTS Proofs.C12MultiSwift Proofs.C12MultiGo Proofs.MultiSameSites.
 From TS Require Props.C04.
 
 Goal forall attrs : list attr, serde_default attrs = bare_default attrs.
@@ -360,3 +361,56 @@ Goal (forall d p m, mb_optional (ts_obs_member m) = c04s_type_mark (c04r_seen (t
   (forall d m, mb_optional (py_obs_member m) = c04s_type_mark (c04r_seen (py_c04_member d m)) && c04s_init_mark (c04r_seen (py_c04_member d m))).
 Proof. exact Props.C04.C04_decl_optional_agrees. Qed.
 Print Assumptions Props.C04.C04_decl_optional_agrees.
+Goal forall uc cfg st pd ds st',
+  Proofs.C12MultiTS.ts_multi_decls uc cfg st pd = Ok (ds, st') ->
+  exists items, Model.Topsort.topsort (items_of pd) = Ok items /\
+    Forall2 (fun it d =>
+      (forall s, it = ItStruct s ->
+         exists docs name ms, d = TSInterface docs name (sgenerics s) ms /\
+           Forall2 (fun f m =>
+             type_override f TypeScript = None ->
+             (is_optional (fty f) = true -> tmap_get (ts_type_mappings cfg) (rtype_display (fty f)) = None) ->
+             forall decl pos, c04_fieldlike pos = true ->
+             exists y s1 s2, ts_texp cfg (sgenerics s) (Proofs.C04.c04_strip (fty f)) s1 = Ok (y, s2) /\
+               good_C04 TypeScript (Proofs.C04_Back.c04_expect_of pos (fty f) (has_default f) (ts_show y))
+                        (c04r_seen (ts_c04_member decl pos m)) = true) (sfields s) ms) /\
+      (forall a, it = ItAlias a ->
+         (is_optional (atype a) = true -> tmap_get (ts_type_mappings cfg) (rtype_display (atype a)) = None) ->
+         exists y s1 s2, ts_texp cfg (agenerics a) (Proofs.C04.c04_strip (atype a)) s1 = Ok (y, s2) /\
+           ts_c04_rows d = [c04_mk (renamed (aid a)) [] C04Alias (is_optional (atype a)) (is_optional (atype a)) (is_double_optional (atype a)) (ts_show y) (ts_show y)] /\
+           good_C04 TypeScript (Proofs.C04_Back.c04_expect_of C04Alias (atype a) false (ts_show y))
+                    (c04r_seen (c04_mk (renamed (aid a)) [] C04Alias (is_optional (atype a)) (is_optional (atype a)) (is_double_optional (atype a)) (ts_show y) (ts_show y))) = true)) items ds.
+Proof. exact Props.C04.C04_multi_back_typescript. Qed.
+Print Assumptions Props.C04.C04_multi_back_typescript.
+Goal forall uc cfg st pd ds st',
+  Proofs.C12MultiSwift.sw_multi_decls uc cfg st pd = Ok (ds, st') ->
+  exists items, Model.Topsort.topsort (items_of pd) = Ok items /\
+    Forall2 (fun it d => forall a, it = ItAlias a ->
+      exists x y s3 s4, sw_c04_rows d = [c04_typed sw_show (sw_prefix cfg ++ renamed (aid a)) [] C04Alias x] /\
+        sw_texp cfg (agenerics a) (Proofs.C04.c04_strip (atype a)) s3 = Ok (y, s4) /\
+        good_C04 Swift (Proofs.C04_Back.c04_expect_of C04Alias (atype a) false (sw_show y))
+                 (c04r_seen (c04_typed sw_show (sw_prefix cfg ++ renamed (aid a)) [] C04Alias x)) = true) items ds.
+Proof. exact Props.C04.C04_multi_back_swift_alias. Qed.
+Print Assumptions Props.C04.C04_multi_back_swift_alias.
+Goal forall uc cfg st pd ds st',
+  Proofs.C12Multi.py_multi_decls uc cfg st pd = Ok (ds, st') ->
+  exists items dss, Model.Topsort.topsort (items_of pd) = Ok items /\ ds = List.concat dss /\
+    Forall2 (fun it dl => forall a, it = ItAlias a ->
+      (is_optional (atype a) = true -> tmap_get (py_type_mappings cfg) (rtype_display (atype a)) = None) ->
+      exists x y s3 s4, flat_map py_c04_rows dl = [c04_typed py_show (renamed (aid a)) [] C04Alias x] /\
+        py_texp cfg (agenerics a) (Proofs.C04.c04_strip (atype a)) s3 = Ok (y, s4) /\
+        good_C04 Python (Proofs.C04_Back.c04_expect_of C04Alias (atype a) false (py_show y))
+                 (c04r_seen (c04_typed py_show (renamed (aid a)) [] C04Alias x)) = true) items dss.
+Proof. exact Props.C04.C04_multi_back_python_alias. Qed.
+Print Assumptions Props.C04.C04_multi_back_python_alias.
+Goal forall uc cfg st pd ds st',
+  go_no_pointer_slice cfg = false ->
+  Proofs.C12MultiGo.go_multi_decls uc cfg st pd = Ok (ds, st') ->
+  exists items dss, Model.Topsort.topsort (items_of pd) = Ok items /\ ds = List.concat dss /\
+    Forall2 (fun it dl => forall a, it = ItAlias a ->
+      (is_optional (atype a) = true -> tmap_get (go_type_mappings cfg) (rtype_display (atype a)) = None) ->
+      exists name x y s3 s4, flat_map go_c04_rows dl = [go_c04_typed name [] C04Alias x] /\
+        go_texp cfg [] (Proofs.C04.c04_strip (atype a)) s3 = Ok (y, s4) /\
+        good_C04 Go (Proofs.C04_Back.c04_expect_of C04Alias (atype a) false (go_show y)) (c04r_seen (go_c04_typed name [] C04Alias x)) = true) items dss.
+Proof. exact Props.C04.C04_multi_back_go_alias. Qed.
+Print Assumptions Props.C04.C04_multi_back_go_alias.
